@@ -519,6 +519,20 @@ impl<'r> Gen<'r> {
         }
     }
 
+    /// a constructor expression of aggregate type `t`: scalar components are arbitrary expressions, aggregate
+    /// components are constructors again (no aggregate is copied out of a local)
+    fn gen_ctor(&mut self, t: &Ty, depth: u32) -> Expr {
+        let d = depth.saturating_sub(1);
+        match t {
+            Ty::Int(_) | Ty::Bool => self.gen_expr(t, d),
+            Ty::Unit => Expr::Unit,
+            Ty::Tuple(ts) => Expr::Tuple(ts.iter().map(|t| self.gen_ctor(t, d)).collect()),
+            Ty::Struct(i) => { let fs: Vec<Ty> = self.structs[*i].fields.iter().map(|f| f.1.clone()).collect(); Expr::StructNew(*i, fs.iter().map(|t| self.gen_ctor(t, d)).collect()) }
+            Ty::Enum(i) => { let v = self.r.below(self.enums[*i].variants.len() as u64) as usize; let pt = self.enums[*i].variants[v].1.clone(); Expr::EnumNew(*i, v, Box::new(self.gen_ctor(&pt, d))) }
+            Ty::Array(t, n) => Expr::Array((0..*n).map(|_| self.gen_ctor(t, d)).collect()),
+        }
+    }
+
     fn arith(&mut self, op: BinOp, w: W, depth: u32) -> Expr {
         let a = self.gen_expr(&Ty::Int(w), depth - 1);
         let b = if matches!(op, BinOp::Div | BinOp::Mod) && !self.r.chance(1, 6) {
@@ -724,8 +738,10 @@ impl<'r> Gen<'r> {
                     if let Expr::Var(x) = &e { if *x == v.name { e = self.gen_value(&t); } }
                     // Re-assigning an aggregate from another local (`a = b; … b = a;`) builds memcpy cycles on which
                     // sway-ir's memcpyopt::copy_prop_reverse does not terminate (compiler hang, mostly release).
-                    // Aggregate re-assignments therefore always take their value from a real call.
-                    if !matches!(t, Ty::Int(_) | Ty::Bool) && !matches!(e, Expr::Opq(..)) { e = Expr::Opq(t.clone(), Box::new(e)); }
+                    // Aggregate re-assignments therefore never copy from another aggregate local.
+                    // (Wrapping the value in a generic `#[inline(never)]` identity call instead trips an `unwrap` in
+                    // sway-ir sroa.rs:392 in release builds.) Aggregates are re-assigned from constructor expressions.
+                    if !matches!(t, Ty::Int(_) | Ty::Bool) { e = self.gen_ctor(&t, depth); }
                     out.push(Stmt::Assign { var: v.name, path, e });
                     return;
                 }
